@@ -19,6 +19,26 @@ theorem rawFits_cast (M : Mesh) (f : CF) (t : Ty) (od : Opd) (hm : f.mesh = M) (
     (h : RawFits M.n t.nv od) : RawFits f.mesh.n f.nvdim od := by
   rw [hm, hn]; exact h
 
+/-- NumPy's integer-power rule cannot object when one of the two dtypes is not an integer one -/
+theorem kinds_negIntPow (pw : Bool) (kb ke : Kind) (e : NDA GQ) (h : kb ≠ .int ∨ ke ≠ .int) :
+    negIntPow pw kb ke e = false := by
+  simp only [negIntPow]
+  rcases h with h | h <;> simp [h]
+
+/-- `f << o` for two fields: accepted, with the tabulated metadata `shlTy` -/
+theorem shl_hasMeta (env : Env) (M : Mesh) (hM : MeshOk M) (f o : CF) (hf : Good M f) (ho : Good M o) :
+    ∃ g, applyBin env .shl (.fld f) (.fld o) = .ok (.fld g) ∧ HasMeta M g (shlTy M (tyOf f) (tyOf o)) := by
+  obtain ⟨g, h, hg, h1, h2, h3, h4, h5⟩ := applyBin_shl_ff env M hM f o hf ho
+  refine ⟨g, h, hg, h1, h3, ?_, h2, h5⟩
+  show g.vmap = if (dictUpdate f.vmap o.vmap).length = f.nvdim + o.nvdim then dictUpdate f.vmap o.vmap
+    else vmapDefault (f.nvdim + o.nvdim) M.region.ndim (shlLabels f.vdims o.vdims (f.nvdim + o.nvdim)) M.region.dims
+  by_cases hl : (dictUpdate f.vmap o.vmap).length = f.nvdim + o.nvdim
+  · rw [if_pos hl] at h4 ⊢; exact h4
+  · rw [if_neg hl] at h4 ⊢
+    rw [vmapSet_none_eq, h3] at h4
+    injection h4 with h4
+    exact h4.symm
+
 /-- **soundness of the typing judgment**: a well-typed tree over `Good` fields on a mesh `M`
 evaluates to a field, that field is `Good` on `M` and carries the predicted component
 count, labels, mapping, unit and dtype kind -/
@@ -150,6 +170,96 @@ theorem hasTy_sound (env : Env) (M : Mesh) (hM : MeshOk M) (hgood : ∀ f ∈ en
       applyBin_ufunc_rf env b hb M hM f hfg od (rawFits_cast M f t od hfg.2.2 f1 hfit) hu
     exact ⟨g, by rw [evalF_bin env b _ r _ _ (evalF_opd env od) hf, hg],
       hasMeta_res M g t _ hgg (by rw [g1, f1]) (by rw [g2, f2]) (by rw [g3, f3]) g4 (by rw [g5, f5])⟩
+  | powFF l r tl tr d _ _ hd hk ihl ihr =>
+    obtain ⟨f, hf, hfg, f1, f2, f3, _, f5⟩ := ihl
+    obtain ⟨o, ho, hog, o1, o2, o3, _, o5⟩ := ihr
+    have hpw : negIntPow true f.kind o.kind o.data = false := kinds_negIntPow _ _ _ _ (by rw [f5, o5]; exact hk)
+    obtain ⟨g, hg, hgg, g1, g2, g3, g4, g5⟩ :=
+      applyOperator_fld_accepts GQ.pow true M hM f o hfg hog d (by rw [f1, o1]; exact hd) hpw
+    refine ⟨g, by rw [evalF_bin env .pow l r _ _ hf ho]; simp only [applyBin, forwardOp, binFn, isPow, hg], ?_⟩
+    have hsrc : (metaSrc f o) = if tl.nv = 1 ∧ 1 < tr.nv then o else f := by
+      unfold metaSrc; rw [f1, o1]
+    rw [hsrc] at g2 g3
+    have hdv : d = if tl.nv = 1 ∧ 1 < tr.nv then tr.nv else tl.nv := by
+      rw [← metaSrc_nvdim f o d hfg.1.2.2 hog.1.2.2 (by rw [f1, o1]; exact hd), hsrc]
+      split
+      · exact o1
+      · exact f1
+    rw [f5, o5] at g5
+    by_cases hc : tl.nv = 1 ∧ 1 < tr.nv
+    · rw [if_pos hc] at g2 g3 hdv ⊢
+      exact hasMeta_res M g tr _ hgg (by rw [g1, hdv]) (by rw [g2, o2]) (by rw [g3, o3]) g4 g5
+    · rw [if_neg hc] at g2 g3 hdv ⊢
+      exact hasMeta_res M g tl _ hgg (by rw [g1, hdv]) (by rw [g2, f2]) (by rw [g3, f3]) g4 g5
+  | powRF od r t _ hfit hu hnp hk ih =>
+    obtain ⟨f, hf, hfg, f1, f2, f3, _, f5⟩ := ih
+    have hpw : negIntPow true (rawKind od) f.kind f.data = false := kinds_negIntPow _ _ _ _ (by rw [f5]; exact hk)
+    obtain ⟨g, hg, hgg, g1, g2, g3, g4, g5⟩ :=
+      ufunc2_rf_accepts GQ.pow true M hM f hfg od (rawFits_cast M f t od hfg.2.2 f1 hfit) hu hpw
+    refine ⟨g, ?_, hasMeta_res M g t _ hgg (by rw [g1, f1]) (by rw [g2, f2]) (by rw [g3, f3]) g4
+      (by rw [g5, f5, Kind.join_comm])⟩
+    rw [evalF_bin env .pow _ r _ _ (evalF_opd env od) hf]
+    simp only [applyBin, hnp, if_true, binFn, isPow, hg]
+  | upowFF l r tl tr _ _ hd hk ihl ihr =>
+    obtain ⟨f, hf, hfg, f1, f2, f3, _, f5⟩ := ihl
+    obtain ⟨o, ho, hog, o1, _, _, _, o5⟩ := ihr
+    have hpw : negIntPow true f.kind o.kind o.data = false := kinds_negIntPow _ _ _ _ (by rw [f5, o5]; exact hk)
+    obtain ⟨g, hg, hgg, g1, g2, g3, g4, g5⟩ :=
+      ufunc2_ff_accepts GQ.pow true M hM f o hfg hog (by rw [f1, o1]; exact hd) hpw
+    exact ⟨g, by rw [evalF_bin env .upow l r _ _ hf ho]; simp only [applyBin, binFn, isPow, hg],
+      hasMeta_res M g tl _ hgg (by rw [g1, f1]) (by rw [g2, f2]) (by rw [g3, f3]) g4 (by rw [g5, f5, o5])⟩
+  | upowRF od r t _ hfit hu hk ih =>
+    obtain ⟨f, hf, hfg, f1, f2, f3, _, f5⟩ := ih
+    have hpw : negIntPow true (rawKind od) f.kind f.data = false := kinds_negIntPow _ _ _ _ (by rw [f5]; exact hk)
+    obtain ⟨g, hg, hgg, g1, g2, g3, g4, g5⟩ :=
+      ufunc2_rf_accepts GQ.pow true M hM f hfg od (rawFits_cast M f t od hfg.2.2 f1 hfit) hu hpw
+    refine ⟨g, ?_, hasMeta_res M g t _ hgg (by rw [g1, f1]) (by rw [g2, f2]) (by rw [g3, f3]) g4
+      (by rw [g5, f5, Kind.join_comm])⟩
+    rw [evalF_bin env .upow _ r _ _ (evalF_opd env od) hf]
+    simp only [applyBin, binFn, isPow, hg]
+  | ufuncSF b l r tl tr hb _ _ h1 h2 hvd hk ihl ihr =>
+    obtain ⟨f, hf, hfg, f1, f2, _, _, f5⟩ := ihl
+    obtain ⟨o, ho, hog, o1, _, _, _, o5⟩ := ihr
+    have hpw : negIntPow (isPow b) f.kind o.kind o.data = false := by
+      cases hp : isPow b with
+      | false => exact negIntPow_false _ _ _
+      | true => exact kinds_negIntPow _ _ _ _ (by rw [f5, o5]; exact hk hp)
+    obtain ⟨g, hg, hgg, g1, g2, g3, g4, g5⟩ :=
+      ufunc2_sf_accepts (binFn b) (isPow b) M hM f o hfg hog (by rw [f1, h1]) (by rw [f2, hvd]) hpw
+    refine ⟨g, ?_, hgg, by rw [g1, o1], by rw [g2, o1], g3, g4, by rw [g5, f5, o5]⟩
+    rw [evalF_bin env b l r _ _ hf ho]
+    cases b <;> simp [isUfuncBin] at hb <;> simp only [applyBin, hg]
+  | shlFR l od t _ hfit ih =>
+    obtain ⟨f, hf, hfg, f1, f2, f3, _, f5⟩ := ih
+    obtain ⟨o, ho, hog, o1, o2, o3, _, o5⟩ := liftOpd_accepts M hM od hfit
+    obtain ⟨g, hg, hgm⟩ := shl_hasMeta env M hM f o hfg hog
+    refine ⟨g, ?_, ?_⟩
+    · rw [evalF_bin env .shl l _ _ _ hf (evalF_opd env od)]
+      simp only [applyBin, forwardOp, shlOp]
+      rw [hfg.2.2, ho]
+      simpa only [applyBin, forwardOp, shlOp] using hg
+    · have e1 : tyOf f = t := by cases t; simp only [tyOf] ; congr
+      have e2 : tyOf o = liftTy M od := by simp only [tyOf, liftTy]; congr
+      rw [e1, e2] at hgm; exact hgm
+  | shlRF od r t _ hfit hnp ih =>
+    obtain ⟨f, hf, hfg, f1, f2, f3, _, f5⟩ := ih
+    obtain ⟨o, ho, hog, o1, o2, o3, _, o5⟩ := liftOpd_accepts M hM od hfit
+    obtain ⟨g, hg, hgm⟩ := shl_hasMeta env M hM o f hog hfg
+    refine ⟨g, ?_, ?_⟩
+    · rw [evalF_bin env .shl _ r _ _ (evalF_opd env od) hf]
+      simp only [applyBin, hnp, Bool.false_eq_true, if_false, reflectedOp]
+      rw [hfg.2.2, ho]
+      simpa only [applyBin, forwardOp, shlOp] using hg
+    · have e1 : tyOf f = t := by cases t; simp only [tyOf] ; congr
+      have e2 : tyOf o = liftTy M od := by simp only [tyOf, liftTy]; congr
+      rw [e1, e2] at hgm; exact hgm
+  | angleFR l od t _ hfit ih =>
+    obtain ⟨f, hf, hfg, f1, _⟩ := ih
+    obtain ⟨g, hg, hgg, g1, g2, g3, g4, g5⟩ :=
+      angleOp_raw_accepts env.sq env.acos M hM f hfg od (by rw [f1]; exact hfit)
+    refine ⟨g, ?_, hgg, g1, g2, g3, g4, g5⟩
+    rw [evalF_bin env .angle l _ _ _ hf (evalF_opd env od)]
+    simp only [applyBin, forwardOp, hg]
 
 /-- `Mesh.allclose` is reflexive for non-negative tolerances -/
 theorem isclose_self (x rtol atol : Rat) (h1 : 0 ≤ rtol) (h2 : 0 ≤ atol) : Region.isclose x x rtol atol = true := by
